@@ -267,7 +267,11 @@ def evalLine (st : St) (w : List String) : Option (String × Except Impl.MErr (I
       -- executable instance of calc_correct_partial: hypotheses hold ⇒ conclusion must hold
       let thmFail := more.isEmpty && Check.noDeviant st.lookS (refOK st) e &&
         !relR r (Spec.eval st.lookS e)
-      some (rs ++ " render=" ++ (if rendered then "ok" else "DIFF") ++
+      -- the string CalcCellValue(RawCellValue) returns for a numeric result
+      let outS := match more, r with
+        | [], .ok (.num x false) => " out=" ++ hexOut (CalcFloat.renderNumber x)
+        | _, _ => ""
+      some (rs ++ outS ++ " render=" ++ (if rendered then "ok" else "DIFF") ++
         " tree=" ++ (if sameRes r rt then "ok" else "DIFF") ++ " S=" ++ ss ++
         (if thmFail then " THM-FAIL" else ""), r, sp)
     | _, _ => none
@@ -332,7 +336,11 @@ def step (st : St) (w : List String) : St × String :=
        | some ki, some ksp =>
          let ci := ki.flatten.map fun k => (st.lookI k).getD .empty
          let cs := ksp.flatten.map fun k => (st.lookS k).getD .blank
-         (st, showRes (Impl.aggregate fn ci) ++ " S=" ++ showSpec (Spec.aggregate fn cs))
+         let ra := Impl.aggregate fn ci
+         let outS := match ra with
+           | .ok (.num x false) => " out=" ++ hexOut (CalcFloat.renderNumber x)
+           | _ => ""
+         (st, showRes ra ++ outS ++ " S=" ++ showSpec (Spec.aggregate fn cs))
        | _, _ => (st, "bad-op"))
     | _, _ => (st, "bad-op")
   | ["main", _] => (st, "ok")
